@@ -206,7 +206,11 @@ func runBatch(c *check, replay string) int {
 			if shown > 3 {
 				continue
 			}
-			dst := filepath.Join(verifDir, "replays", "found", filepath.Base(v.Replay))
+			base := filepath.Base(v.Replay)
+			if i := strings.Index(base, "-"); i > 0 {
+				base = c.id + base[i:]
+			}
+			dst := filepath.Join(verifDir, "replays", "found", base)
 			os.MkdirAll(filepath.Dir(dst), 0o755)
 			if bb, err := os.ReadFile(v.Replay); err == nil {
 				// stamp the part name so that the replay finds its property
